@@ -1,83 +1,7 @@
 (* Proofs about the struct-tag plumbing model (Client/Fields.v). *)
 From Coq Require Import List Bool NArith ZArith Lia ZifyN ZifyNat.
 Import ListNotations.
-From Setec Require Import Base.SMap Client.Store Client.StoreInv Client.Fields.
-
-(* ------------------------------------------------------------------ *)
-(* strings.Split / strings.Join / path.Clean / path.Join               *)
-
-Lemma split_on_cons sep s : exists seg segs, split_on sep s = seg :: segs.
-Proof.
-  destruct s as [|c r]; cbn [split_on]; [eauto|].
-  destruct (N.eqb c sep); [eauto|]. destruct (split_on sep r); eauto.
-Qed.
-
-Lemma join_split sep s : join_with sep (split_on sep s) = s.
-Proof.
-  induction s as [|c r IH]; [reflexivity|]. cbn [split_on].
-  destruct (N.eqb c sep) eqn:E.
-  - apply N.eqb_eq in E. subst c.
-    destruct (split_on_cons sep r) as (seg & segs & H). rewrite H in *.
-    cbn [join_with app]. cbn [join_with] in IH. rewrite IH. reflexivity.
-  - destruct (split_on_cons sep r) as (seg & segs & H). rewrite H in *.
-    cbn [join_with] in *. destruct segs; [rewrite IH; reflexivity|].
-    rewrite <- IH. reflexivity.
-Qed.
-
-Lemma split_app sep a b : split_on sep (a ++ sep :: b) = split_on sep a ++ split_on sep b.
-Proof.
-  induction a as [|c r IH]; cbn [app split_on].
-  - rewrite N.eqb_refl. reflexivity.
-  - destruct (N.eqb c sep); [rewrite IH; reflexivity|].
-    rewrite IH. destruct (split_on_cons sep r) as (seg & segs & H). rewrite H. reflexivity.
-Qed.
-
-Lemma seg_ok_inv s : seg_ok s = true -> (is_empty s || is_dot s) = false /\ is_dotdot s = false.
-Proof.
-  unfold seg_ok. destruct (is_empty s), (is_dot s), (is_dotdot s); cbn; intuition congruence.
-Qed.
-
-Lemma clean_segs_ok segs : forall st, forallb seg_ok segs = true -> clean_segs false segs st = rev st ++ segs.
-Proof.
-  induction segs as [|s r IH]; intros st H; cbn [clean_segs].
-  - rewrite app_nil_r. reflexivity.
-  - cbn [forallb] in H. apply andb_true_iff in H. destruct H as [Hs Hr].
-    destruct (seg_ok_inv _ Hs) as [E1 E2]. rewrite E1, E2.
-    rewrite IH by exact Hr. cbn [rev]. rewrite <- app_assoc. reflexivity.
-Qed.
-
-Lemma clean_nonempty p : clean p = true -> p <> [].
-Proof. intros H ->. discriminate H. Qed.
-
-Lemma clean_not_rooted c r : clean (c :: r) = true -> N.eqb c slash = false.
-Proof.
-  unfold clean. cbn [split_on]. destruct (N.eqb c slash); [|reflexivity].
-  cbn [forallb seg_ok is_empty orb negb andb]. discriminate.
-Qed.
-
-Lemma path_clean_id p : clean p = true -> path_clean p = p.
-Proof.
-  intro H. destruct p as [|c r]; [discriminate H|].
-  unfold path_clean. rewrite (clean_not_rooted _ _ H).
-  rewrite clean_segs_ok by exact H. cbn [rev app]. rewrite join_split. reflexivity.
-Qed.
-
-Lemma clean_join a b : clean a = true -> clean b = true -> clean (a ++ slash :: b) = true.
-Proof. unfold clean. intros Ha Hb. rewrite split_app, forallb_app, Ha, Hb. reflexivity. Qed.
-
-(* path.Join on the property's domain *)
-Lemma path_join_clean a b : clean a = true -> clean b = true -> path_join2 a b = a ++ slash :: b.
-Proof.
-  intros Ha Hb. pose proof (clean_nonempty _ Ha). pose proof (clean_nonempty _ Hb).
-  destruct a; [congruence|]. destruct b; [congruence|].
-  unfold path_join2. apply path_clean_id. apply clean_join; assumption.
-Qed.
-
-Lemma path_join_noprefix b : clean b = true -> path_join2 [] b = b.
-Proof.
-  intros Hb. pose proof (clean_nonempty _ Hb). destruct b; [congruence|].
-  unfold path_join2. apply path_clean_id. assumption.
-Qed.
+From Setec Require Import Base.SMap Base.Path Base.PathProofs Client.Store Client.StoreInv Client.Fields.
 
 (* ------------------------------------------------------------------ *)
 (* parseFields                                                         *)
@@ -155,7 +79,7 @@ Lemma secrets_exact sh pfs pfx : parse_fields (AStructPtr sh) = inr pfs ->
 Proof.
   intro H. destruct (parse_fields_inr _ _ H) as (sh' & [= <-] & Hl & _).
   destruct (parse_list_ok _ _ Hl) as [H1 _]. unfold secrets_of, declared_names.
-  rewrite <- H1, map_map. reflexivity.
+  rewrite <- H1, map_map. apply map_ext. intros pf. unfold full_name. apply go_join2_is_path_join2.
 Qed.
 
 Lemma declared_names_nonempty sh pfs : parse_fields (AStructPtr sh) = inr pfs -> Forall (fun n => n <> []) (declared_names sh).
@@ -709,6 +633,20 @@ Proof.
   intros I Ha. destruct (field_values _ _ _ _ _ _ I Ha) as (_ & HF).
   clear Ha. induction HF as [|pf r pfs' frs' (Hl & Hn & _) _ IH]; [constructor|].
   constructor; [split; [exact Hn|exact Hl]|exact IH].
+Qed.
+
+(* requested = applied, elementwise, for every prefix *)
+Lemma requested_are_applied pfx pfs (s s' : store) frs rq :
+  Inv s -> apply jdec unm_ok ans now_s pfx s pfs = (s', frs, rq) ->
+  Forall2 (fun n (r : fres) => rname r = n) (secrets_of pfx pfs) frs /\
+  secrets_of pfx pfs = map (fun pf => go_join [pfx; psecret pf]) pfs /\
+  secrets_of pfx pfs = map (fun pf => path_join2 pfx (psecret pf)) pfs.
+Proof.
+  intros I Ha. split; [|split].
+  - pose proof (apply_names_pointwise _ _ _ _ _ _ I Ha) as F. unfold secrets_of.
+    clear Ha. induction F as [|pf r pfs' frs' (Hn & _) _ IH]; [constructor|]. cbn [map]. constructor; assumption.
+  - reflexivity.
+  - unfold secrets_of. apply map_ext. intros pf. apply go_join2_is_path_join2.
 Qed.
 
 (* declaring through Secrets() and applying afterwards is NewStore with the struct configured, for
